@@ -206,13 +206,23 @@ fn run<B: SimField, H: ElementHasher<BaseField = B> + Send + Sync + 'static>(
             // F2: auxiliary cell
             let aux = case.shape.aux.clone().unwrap();
             let col = ch.index("F2.col", aux.width);
-            let steps = [0, 1, n - e - 1, n - e, (n - e + 1).min(n - 1), n - 1, n / 2];
+            let mut steps = vec![0, 1, n - e - 1, n - e, (n - e + 1).min(n - 1), n - 1, n / 2];
+            // asserted steps of an auxiliary sequence assertion that lie in the exempt zone, and
+            // their neighbours
+            if let Some(a) = aux.asserts.iter().find(|a| a.col == col) {
+                for s in a.steps(n).into_iter().filter(|s| *s > n - e) {
+                    steps.push(s);
+                    steps.push((s + 1).min(n - 1));
+                    steps.push(s - 1);
+                }
+            }
             let step = if ch.chance("F2.uniform?", 1, 3) { ch.index("F2.step", n) } else { steps[ch.index("F2.stepsel", steps.len())] };
             let delta = 1 + ch.pick("F2.delta", 1 << 30);
             let is_lagrange = aux.lagrange && col == aux.width - 1;
             // plain aux column j: cell (j, s) is constrained iff s == 0 (assertion), or the
             // transition into s is enforced (s-1 < n-e), or the transition out of s is (s < n-e)
-            let invalid = is_lagrange || step == 0 || step < n - e + 1;
+            // or an auxiliary sequence assertion names it
+            let invalid = is_lagrange || step == 0 || step < n - e + 1 || aux.asserted(col, step, n);
             ctx.fault(if invalid { "F2_aux_cell_corrupted_invalidating" } else { "F2_aux_cell_corrupted_still_valid" });
             let res = prove_and_verify::<B, H>(&case, &case.rows, Some(AuxFault { col, step, delta, neg: false }));
             let verdict = match &res {
@@ -431,8 +441,11 @@ fn run<B: SimField, H: ElementHasher<BaseField = B> + Send + Sync + 'static>(
             if shape.assertions.is_empty() {
                 shape.assertions.push(AssertSpec { kind: AssertKind::Single, col: 0, first: 0, stride: 0, count: 1 });
             }
-            let values = read_assertion_values(&shape, &case.rows);
-            let c2 = Case { blowup: case.blowup, shape: shape.clone(), rows: case.rows.clone(), inputs: SimInputs { shape: shape.clone(), values }, options: case.options.clone() };
+            // (and no auxiliary sequence assertion: its partial sums would change with the rows)
+            if let Some(a) = shape.aux.as_mut() {
+                a.asserts.clear();
+            }
+            let c2 = Case { blowup: case.blowup, shape: shape.clone(), rows: case.rows.clone(), inputs: SimInputs::from_trace(&shape, &case.rows), options: case.options.clone() };
             match prove_and_verify::<B, H>(&c2, &c2.rows, None) {
                 Some((a, b)) if a.accepted() && b.accepted() => {},
                 _ => {
